@@ -187,6 +187,8 @@ fn check_ord<T: Cust>(a: i128, b: i128, rep: &mut Report) {
     rep.eval(1);
 }
 
+static DICT: std::sync::OnceLock<vmon::dict::Dict> = std::sync::OnceLock::new();
+
 /// structured in-range operand set
 fn structured<T: Cust>() -> Vec<i128> {
     let mut v = Vec::new();
@@ -211,6 +213,10 @@ fn structured<T: Cust>() -> Vec<i128> {
             push(eq + (1i128 << k) + d);
             push(eq - (1i128 << k) + d);
         }
+    }
+    // numeric literals of the crate's own source (magic-value special cases), in-range re-basings
+    for x in DICT.get_or_init(|| vmon::dict::harvest("/repo", &["dasp_sample"])).ints_for(T::lo(), T::hi(), T::BITS) {
+        push(x);
     }
     // square-root neighbourhood (products that just fit / just overflow)
     let s = ((T::hi() as f64).sqrt()) as i128;
